@@ -167,6 +167,10 @@ pub(crate) struct Net {
     disk_short: Option<usize>,
     /// the disk is full after this many more bytes
     disk_left: Option<u64>,
+    /// scheduling points (lock acquisitions): a task yields once with this probability (per mille)
+    sched_yield_per_mille: u64,
+    sched_rng: Rng,
+    pub sched_yields: u64,
 }
 
 thread_local! {
@@ -196,6 +200,9 @@ pub(crate) fn reset(seed: u64) {
             files_failed: BTreeMap::new(),
             disk_short: None,
             disk_left: None,
+            sched_yield_per_mille: 0,
+            sched_rng: Rng::new(seed ^ 0x5c4e_d01e_7a5c_11ed),
+            sched_yields: 0,
         })
     });
 }
@@ -239,6 +246,31 @@ pub(crate) fn log_event(kind: &str, a: u64, b: u64) {
             net.events += 1;
         }
     });
+}
+
+/// How often a scheduling point makes the running task yield (per mille; 0 = never, the default).
+pub(crate) fn set_yield_rate(per_mille: u64) {
+    with_net(|n| n.sched_yield_per_mille = per_mille.min(1000));
+}
+
+/// A scheduling point of the simulator (see `event::verif::GlobalHandle`): with the run's seeded
+/// probability the calling task goes to the back of the run queue once. The decision comes from a
+/// PRNG stream of its own, so that enabling it does not disturb the transport's draws.
+pub(crate) async fn sched_point(kind: u64) {
+    let go = NET.with(|n| match n.borrow_mut().as_mut() {
+        Some(net) if net.sched_yield_per_mille > 0 => {
+            let hit = net.sched_rng.below(1000) < net.sched_yield_per_mille;
+            if hit {
+                net.sched_yields += 1;
+            }
+            hit
+        }
+        _ => false,
+    });
+    if go {
+        log_event("yield", kind, 0);
+        tokio::task::yield_now().await;
+    }
 }
 
 pub(crate) fn trace_on() -> bool {
